@@ -21,6 +21,28 @@ full = sys.argv[2].strip()=='./...'
 bad=[t for t in sp if (res.get(t)!='pass') and (full or t in res)]
 seen=sum(1 for t in sp if t in res)
 print(f"baseline: stable_pass={len(sp)} seen={seen} not-passing={len(bad)}")
+# a loaded machine makes a few timing-sensitive tests flake: re-run what did not pass, alone, once
+import subprocess,os,collections
+still=[]
+if bad and len(bad)<=40:
+    bypkg=collections.defaultdict(list)
+    for t in bad:
+        pkg,name=t.split('::',1); bypkg[pkg].append(name.split('/')[0])
+    repo=os.environ.get('REPO','/repo')
+    for pkg,names in bypkg.items():
+        rel='./'+pkg.split('github.com/bufbuild/buf/',1)[1]
+        rx='^('+'|'.join(sorted(set(names)))+')$'
+        r=subprocess.run(['go','test','-mod=mod','-json','-vet=off','-count=1','-timeout','25m','-run',rx,rel],cwd=repo,capture_output=True,text=True)
+        res2={}
+        for line in r.stdout.splitlines():
+            try: e=json.loads(line)
+            except Exception: continue
+            if e.get('Test') and e.get('Action') in ('pass','fail','skip'):
+                res2[e['Package']+'::'+e['Test']]=e['Action']
+        for t in bad:
+            if t.startswith(pkg+'::') and res2.get(t)!='pass': still.append(t)
+    print(f"baseline: re-ran {len(bad)} non-passing test(s) alone: {len(still)} still not passing")
+    bad=still
 for t in bad[:50]: print("  NOT PASSING:",t,res.get(t))
 sys.exit(1 if bad or seen==0 else 0)
 PY
